@@ -15,7 +15,7 @@ from edgegraph.structure.base import BaseObject
 from edgegraph.structure.universe import UniverseLaws
 from edgegraph.traversal import breadthfirst, depthfirst, helpers
 
-from egverif import graphs, oracles, trav
+from egverif import graphs, oracles, trav, zoo
 from egverif.common import InjectedFault
 
 RULE = (
@@ -110,6 +110,10 @@ def entry_points(g):
     names = g.names
     yield "neighbors", {"filterfunc": f_via}, lambda c: names(helpers.neighbors(v0, oracles.ANY, oracles.NEIGHBOR, c["filterfunc"]))
     yield "neighbors_fwd", {"filterfunc": f_via}, lambda c: names(helpers.neighbors(v1, oracles.FORWARD, oracles.NEIGHBOR, c["filterfunc"]))
+    unh = zoo.UnhashableFilter(3)
+    yield "neighbors_unhashable_filter", {}, lambda c: names(helpers.neighbors(v0, oracles.ANY, oracles.NEIGHBOR, unh))
+    yield "bft_unhashable_filter", {}, lambda c: names(breadthfirst.bft(uni, v0, ff_via=unh, direction_sensitive=oracles.ANY,
+                                                                         unknown_handling=oracles.NEIGHBOR))
     yield "find_links", {"filterfunc": f_link}, lambda c: sorted(names(helpers.find_links(v0, v1, False, oracles.NEIGHBOR, c["filterfunc"])))
     kw = dict(direction_sensitive=oracles.ANY, unknown_handling=oracles.NEIGHBOR)
     for nm, fn, gen in (("bft", breadthfirst.bft, False), ("ibft", breadthfirst.ibft, True),
@@ -150,7 +154,9 @@ def deep_snapshot(g):
     nm = g.name
     snap = []
     for o in objs:
-        names = sorted(k for k in vars(o) if "cache" not in k.lower())
+        # a lazily created memo TABLE is not graph state; a counter, flag or marker named "...cache..." is
+        names = sorted(k for k, val_ in vars(o).items()
+                       if not ("cache" in k.lower() and isinstance(val_, (dict, list, set))))
         pub = {k: _val(g, v) for k, v in vars(o).items() if not k.startswith("_")}
         rec = [type(o).__name__, names, sorted(pub.items())]
         rec.append([nm(u) for u in o.universes])
@@ -226,7 +232,8 @@ class WriteSpy:
 def floors(ctx):
     q = ctx.tier == "quick"
     f = {"evaluations": 5000 if q else 50000, "faults_injected": 3000 if q else 30000, "faults_propagated": 1000 if q else 10000,
-         "fault_free_runs": 300, "faults_of_library_catchable_types": 3000}
+         "fault_free_runs": 300, "faults_of_library_catchable_types": 3000,
+         "faults_propagated_with_caching_on": 2000}
     for ep, cbs in (("neighbors", ["filterfunc"]), ("find_links", ["filterfunc"]), ("bft", ["ff_via", "ff_result"]),
                     ("ibft", ["ff_via", "ff_result"]), ("dft_recursive", ["ff_via", "ff_result"]),
                     ("idft_recursive", ["ff_via", "ff_result"]), ("dft_iterative", ["ff_via", "ff_result"]),
@@ -302,6 +309,8 @@ def run_graph(ctx, spec, cache, only=None):
                     if propagated:
                         ctx.count("faults_propagated")
                         ctx.count(f"propagated:{ep}:{cbname}")
+                        if cache:
+                            ctx.count("faults_propagated_with_caching_on")
                         ctx.nontrivial((shape, ep, cbname, k, cache))
                     if s2 != s0:
                         ctx.violation(f"{ep}:{cbname}:fault_left_graph_changed",
@@ -338,7 +347,7 @@ def run(ctx):
         if not spec.get("uni"):
             spec["uni"] = list(range(len(spec["verts"])))
         specs.append(spec)
-    n_rand = 170 if quick else 1200
+    n_rand = 170 if quick else 450
     n = 0
     for i in range(len(specs) + n_rand):
         if i < len(specs):
@@ -356,7 +365,7 @@ def run(ctx):
         if ctx.shard == 0 and n in (2, 25):
             ctx.sample({"spec": spec, "caching": bool(i % 2), "enumerated": "every entry point x callback x k in 1..K"})
     ctx.assumptions += [
-        "attribute names containing 'cache' are ignored in the vars() comparison (lazily created memo tables are not graph state)",
+        "attributes whose name contains 'cache' AND whose value is a dict/list/set are ignored in the vars() comparison (a lazily created memo table is not graph state; a counter or marker is)",
         "callbacks are pure apart from the injected fault; the same callable object is reused after the fault",
         "entry points that raise on their own on a graph (outside their domain) are not fault-injected there",
     ]
